@@ -817,6 +817,10 @@ def j_c19(sh, a, b):
             res['keys'].append(hashlib.md5(g.encode()).hexdigest()[:10])
             if g.endswith(' panic') or g.endswith(' hang') or g == '<no output>':
                 res['concrete'].append(dict(line=i, what='%s does not return normally: %s' % (o, g)))
+            elif '2850414e49433d' in g:
+                # fmt recovers a panic raised inside a nested String/Format method and prints `%!s(PANIC=String method: …)`:
+                # the outer call returns, but a renderer panicked
+                res['concrete'].append(dict(line=i, what='%s: a nested renderer panicked, fmt printed (PANIC=…): %s' % (o, bytes.fromhex(g.split(' ', 1)[1]).decode('latin1')[:200] if ' ' in g else g)))
             elif not same(g, sh['lean'][i]) and (sh['lean'][i].endswith('panic')):
                 res['diverge'].append(dict(line=i, what='model panics where the implementation returns'))
             elif not same(g, sh['lean'][i]):
